@@ -107,6 +107,7 @@ class C20(core.Prop):
     drivers = ["s4u_model"]
     sizes = {"quick": 1200, "thorough": 40000}
     max_workers = 6
+    ready = True
     technique = ("property-based testing (Hypothesis): activities executed one at a time on a generated platform, each duration compared with the "
                  "documented closed form computed independently from the platform description (reference model oracle)")
     rule = ("A generated flat platform (vf/platgen.py: 1-4 hosts, speeds 1e3..1e12 with pstates, links 1e3..1e11 B/s with latencies 0..10 s, "
